@@ -34,7 +34,7 @@ CHECKS = {
   "DESIGN.md section 5 C07"),
  "C08": ("fault_enumeration",
   "runtime monitoring: session-lifecycle automaton over the backend event log under cut-point enumeration and server-initiated closes with buffered suffixes; goroutine-table leak check",
-  "Every octet offset of 30 conversations (incl. AUTH exchanges) and of a STARTTLS conversation (plaintext part and inner TLS part) is used as a disconnect point with three failure kinds; server-initiated close reasons (QUIT, error threshold with several kinds of invalid line, over-long line, idle timeout via a virtual deadline also inside AUTH and DATA, backend panic inside Mail / NewSession / Rcpt / Data (early and after the whole message was read, via DATA and BDAT LAST) / Reset, Conn.Reject called from NewSession) are combined with every command suffix of length <=2 already buffered behind the closing command, with ReadTimeout 0 and set, SMTP and LMTP, at default GOMAXPROCS and 1. A session-lifecycle automaton over the recorded callbacks checks exactly-one Logout per session, no callback after Logout, nothing executed after the closing reply or after a 421, no more Mail/Rcpt/NewSession callbacks than completely received (CRLF-terminated) commands of that kind at every cut; the connection's own Close is overlapped with Server.Close / Conn.Close while parked in each callback kind; at the end of the run no goroutine with a go-smtp frame may remain.",
+  "Every octet offset of 30 conversations (incl. AUTH exchanges) and of a STARTTLS conversation (plaintext part and inner TLS part) is used as a disconnect point with three failure kinds; server-initiated close reasons (QUIT, error threshold with several kinds of invalid line, over-long line, idle timeout via a virtual deadline also inside AUTH and DATA, backend panic inside Mail / NewSession / Rcpt / Data (early and after the whole message was read, via DATA and BDAT LAST) / Reset, Conn.Reject called from NewSession) are combined with every command suffix of length <=2 already buffered behind the closing command, with ReadTimeout 0 and set, SMTP and LMTP, at default GOMAXPROCS and 1. A session-lifecycle automaton over the recorded callbacks checks exactly-one Logout per session, no callback after Logout, nothing executed after the closing reply or after a 421, no more Mail/Rcpt/NewSession callbacks than completely received (CRLF-terminated) commands of that kind at every cut; the connection's own Close is overlapped with Server.Close / Conn.Close while parked in each callback kind; for every conversation the k-th write of the server and every later one is made to fail (peer gone: reset / timeout flavour, input still readable) for every k; at the end of the run no goroutine with a go-smtp frame may remain.",
   "Known finding C08:data-begins-after-logout (zero-octet transfer aborted before the delivery goroutine entered Data) is matched narrowly; leak check is global per run, not per case.",
   "DESIGN.md section 5 C08"),
  "C03": ("exploration",
@@ -74,12 +74,12 @@ CHECKS = {
   "DESIGN.md section 5 C11"),
  "C13": ("exploration",
   "runtime monitoring: unique-token statuses and a per-address FIFO reference attribution over exhaustively enumerated recipient lists and status-call sequences; state-based deadlock detection",
-  "For all 30 recipient lists of length <=4 over two addresses, every sequence of SetStatus calls within the multiplicities, three timings, both return values, five panic/misuse kinds, three transfer forms, both backend kinds, refused recipients and refused BDAT commands in between, a second transaction with a different recipient list on the same connection, and (every third case) two addresses that differ only in the letter case of the domain, the real LMTP server's final replies are compared with the reference attribution (count, order, recipient named, code, unique token, verbatim status text containing '%'); the message octets and the absence of recovered panics are checked too. A deadlock is reported from state (backend returned, client idle, server neither reading nor writing, corroborated by the goroutine table), never from elapsed time alone.",
-  "Known finding C13:bdat-last-early-failure-single-reply; statuses set after LMTPData returned violate the backend contract and their effect is not judged.",
+  "For all 30 recipient lists of length <=4 over two addresses, every sequence of SetStatus calls within the multiplicities, three timings, both return values, five panic/misuse kinds, three transfer forms plus three early-failure forms (the delivery gives up before the LAST chunk is consumed: nothing read, three octets read, two of three chunks read), both backend kinds, refused recipients and refused BDAT commands in between, a second transaction with a different recipient list on the same connection, and (every third case) two addresses that differ only in the letter case of the domain, the real LMTP server's final replies are compared with the reference attribution (count, order, recipient named, code, unique token, verbatim status text containing '%'); the message octets and the absence of recovered panics are checked too. A deadlock is reported from state (backend returned, client idle, server neither reading nor writing, corroborated by the goroutine table), never from elapsed time alone.",
+  "Statuses set after LMTPData returned violate the backend contract and their effect is not judged; a backend that returns nil without reading the message is not judged for the statuses it did not set.",
   "DESIGN.md section 5 C13"),
  "C16": ("exploration",
   "runtime monitoring: real client against real server; backend octets vs DotWriter reference, envelope equality, Close verdicts, wire tap around the second Close",
-  "Bodies exhaustive over the tokens {'.', LF, CRLF, x} up to a bound plus seeded 8-bit bodies are written through Client.Data/LMTPData in several partitions of Write calls; the recording backend's octets are compared with the reference normalisation, the envelope with what was given, Close with the server's scripted verdict (accept / reject with token), and a second Close must fail locally without a single octet appearing on the client->server tap. Virtual time: in a fifth of the cases every read deadline armed on the server's end is fired in the middle of the body (WriteTimeout set, ReadTimeout unset), in a third every read/write deadline still armed on the client's end is; a second message with other recipients follows in a quarter.",
+  "Bodies exhaustive over the tokens {'.', LF, CRLF, x} up to a bound plus seeded 8-bit bodies are written through Client.Data/LMTPData in several partitions of Write calls; the recording backend's octets are compared with the reference normalisation, the envelope with what was given, Close with the server's scripted verdict (accept / reject with token), and a second Close must fail locally without a single octet appearing on the client->server tap. Virtual time: in a fifth of the cases every read deadline armed on the server's end is fired in the middle of the body (WriteTimeout set, ReadTimeout unset), in a third every read/write deadline still armed on the client's end is; a second message with other recipients follows in a quarter. Client.SendMail is also given sources that fail after 0 / 1 / half / all-but-one / all octets: it must report the failure and the backend's reader must not end in EOF.",
   "Empty body not judged; CR occurs only inside CRLF as the statement requires.",
   "DESIGN.md section 5 C16"),
  "C17": ("exploration",
@@ -89,7 +89,7 @@ CHECKS = {
   "DESIGN.md section 5 C17"),
  "C18": ("exploration",
   "runtime monitoring: real LMTP client against real per-recipient LMTP server (and a scripted peer for 251 replies); callback sequences vs scripted verdicts; transport-state stall detection",
-  "All transactions of 1..3 recipients (refused at RCPT / ok / refused after DATA) are combined into sequences of 1..3 transactions per connection, with LMTPData+callback, LMTPData(nil) and Data(), with and without Reset in between; the callback sequence of every transaction must equal the accepted recipients with their own unique-token statuses, Close must return (a client parked in Close while the server waits for a command is reported from the transport state), a refusal without callback must come back from Close, and the connection must still be in step afterwards (NOOP, QUIT).",
+  "All transactions of 1..3 recipients (refused at RCPT / ok / refused after DATA) are combined into sequences of 1..3 transactions per connection, with LMTPData+callback, LMTPData(nil) and Data(), with and without Reset in between, also with the DATA command refused once (451) and issued again inside the transaction; the callback sequence of every transaction must equal the accepted recipients with their own unique-token statuses, Close must return (a client parked in Close while the server waits for a command is reported from the transport state), a refusal without callback must come back from Close, and the connection must still be in step afterwards (NOOP, QUIT).",
   "Exhaustive for single transactions; pairs and triples are sampled in the quick tier.",
   "DESIGN.md section 5 C18"),
  "C14": ("exploration",
@@ -99,12 +99,12 @@ CHECKS = {
   "DESIGN.md section 5 C14"),
  "C15": ("exploration",
   "runtime monitoring: per-API-call segmentation of the raw client->server tap against a scripted server; parameter keywords vs the most recent EHLO reply",
-  "A scripted peer advertises each of the 128 subsets of seven extensions (a different one after Reset); MAIL/RCPT option subsets are issued and the keywords on the wire must belong to extensions in the most recent EHLO reply, REQUIRETLS/SMTPUTF8 not offered must be a local error with nothing written; all short strings over {CR, LF, NUL, SP, <, >, a} and a few long/smuggling values are passed in thirteen string-typed arguments and every transport write of the call and of the following call must be exactly one CRLF-terminated line.",
+  "A scripted peer advertises each of the 128 subsets of seven extensions (a different one after Reset); MAIL/RCPT option subsets are issued and the keywords on the wire must belong to extensions in the most recent EHLO reply, REQUIRETLS/SMTPUTF8 not offered must be a local error with nothing written; all short strings over {CR, LF, NUL, SP, <, >, a} and a few long/smuggling values are passed in fourteen string-typed arguments (MailOptions.Body among them, which also rotates through every body type in the parameter product) and every transport write of the call and of the following call must be exactly one CRLF-terminated line.",
   "Relies on the client flushing once per command; the message body is exempt from the one-line rule.",
   "DESIGN.md section 5 C15"),
  "C20": ("exploration",
   "runtime monitoring: Go race detector over enumerated event orders and close/callback overlaps; porcupine linearizability check of concurrent Close/Shutdown histories; termination and goroutine-table checks; scripted Accept errors",
-  "Under the race-detector build (GOMAXPROCS default and 1; also 4 and a non-race pass in thorough): all orders of up to three (thorough: four) harness events from {delivery completes, RSET, next transaction, QUIT, disconnect, Server.Close, Server.Shutdown} against a parked BDAT delivery, a parked LMTP DATA delivery, a parked LMTP BDAT delivery, a parked BDAT delivery of an LMTP server over a plain Session and a BDAT delivery of a backend that serialises Data and Reset with its own mutex; connections idle, in their implicit-TLS handshake, stalled inside a STARTTLS handshake only just handed out by Accept, or handed out at the very moment the listener is closed, when Close / Shutdown fires; Shutdown with a context that has already expired; Server.Close overlapping each callback kind parked on a gate, and called directly from callbacks; groups of 2..8 barrier-released Close/Shutdown callers on one or two listeners (one of them failing to close) whose recorded call/return history is checked by porcupine against the sequential model 'first caller gets the listener result, later ones ErrServerClosed'; all sequences of up to five temporary/permanent Accept errors; replays of C03/C05/C13 cases for race coverage. Race reports are parsed, de-duplicated by racing statement pair and are violations; Serve/handlers/deliveries must terminate and no library goroutine may remain at the end.",
+  "Under the race-detector build (GOMAXPROCS default and 1; also 4 and a non-race pass in thorough): all orders of up to three (thorough: four) harness events from {delivery completes, RSET, next transaction, QUIT, disconnect, Server.Close, Server.Shutdown} against a parked BDAT delivery, a parked LMTP DATA delivery, a parked LMTP BDAT delivery, a parked BDAT delivery of an LMTP server over a plain Session and a BDAT delivery of a backend that serialises Data and Reset with its own mutex; connections idle, in their implicit-TLS handshake, stalled inside a STARTTLS handshake only just handed out by Accept, or handed out at the very moment the listener is closed, when Close / Shutdown fires; Shutdown with a context that has already expired; Server.Close overlapping each callback kind parked on a gate, and called directly from callbacks; groups of 2..8 barrier-released Close/Shutdown callers on one or two listeners (one of them failing to close) whose recorded call/return history is checked by porcupine against the sequential model 'first caller gets the listener result, later ones ErrServerClosed'; all sequences of up to five temporary/permanent Accept errors; 2..4 listeners of which one Serve ends early on a permanent Accept error while the others keep serving and must all be closed by Close / Shutdown; replays of C03/C05/C13 cases for race coverage. Race reports are parsed, de-duplicated by racing statement pair and are violations; Serve/handlers/deliveries must terminate and no library goroutine may remain at the end.",
   "The race detector sees only executed accesses; interleavings are diversified by enumerated orders, gates, yields and GOMAXPROCS, not exhausted.",
   "DESIGN.md section 5 C20"),
 }
